@@ -195,6 +195,8 @@ class Ctx:
         cov = dict(coverage)
         cov.setdefault("samples", self.samples[:8] or ["<none>"])
         cov["caps_hit"] = self.caps
+        if self.caps:
+            cov["exhaustive"] = False  # a capped run is never reported as exhaustive, whatever the check computed
         if self.vacuity_soft:
             cov["vacuity_notes"] = self.vacuity_soft
         cov["stats"] = self.stats
